@@ -99,55 +99,98 @@ def _e1d(h, m2, m3, m4, edge):
 
 
 class Bounds:
-    """Computed discretisation bounds for the quantities EFITEquilibrium derives from a sampled Solov'ev psi grid.
+    """Computed discretisation bounds for the quantities EFITEquilibrium derives from a sampled Solov'ev psi grid on a
+    rectilinear (possibly non-uniform) grid, evaluated with the ACTUAL local spacing around each point.
 
     psi interpolant      : bicubic interpolation of exact node values.
-    dpsi/dR, dpsi/dZ     : np.gradient(edge_order=2) at the nodes (error <= h^2 M3 / 3, the one-sided 3-point formula;
-                           central differences have h^2 M3 / 6) followed by bicubic interpolation of those node values.
+    dpsi/dR, dpsi/dZ     : node values np.gradient(psi, edge_order=2) / np.gradient(axis, edge_order=2) (index-space
+                           differences), then bicubic interpolation of those node values.
+        interior node, spacings a (left) and b (right):  (psi(r+b) - psi(r-a)) / (a + b)
+              = psi' + (b - a)/2 psi'' + R,  |R| <= (a^2 - a b + b^2)/6 M3  <=  max(a,b)^2 / 3 M3   (kept conservative)
+        first node, spacings a, b:  (-3 psi0 + 4 psi1 - psi2) / (3a - b)
+              = psi' + (a - b)(3a + b) / (2 (3a - b)) psi'' + R,  |R| <= (4 a^3 + (a + b)^3) / (6 (3a - b)) M3
+        (Taylor with Lagrange remainder; M2, M3 = sup of the 2nd / 3rd derivative over the grid domain.)
     """
 
     def __init__(self, sol, r, z):
         self.sol = sol
         self.r = np.asarray(r, float)
         self.z = np.asarray(z, float)
-        self.hr = float(np.max(np.diff(self.r)))
-        self.hz = float(np.max(np.diff(self.z)))
+        self.dr = np.diff(self.r)
+        self.dz = np.diff(self.z)
+        self.hr = float(np.min(self.dr))       # smallest spacings (rounding floor)
+        self.hz = float(np.min(self.dz))
+        rho = max(float(np.max(np.maximum(self.dr[1:] / self.dr[:-1], self.dr[:-1] / self.dr[1:]))),
+                  float(np.max(np.maximum(self.dz[1:] / self.dz[:-1], self.dz[:-1] / self.dz[1:]))))
+        self.jump_r = float(np.max(np.abs(np.diff(self.dr)))) if len(self.dr) > 1 else 0.0
+        self.jump_z = float(np.max(np.abs(np.diff(self.dz)))) if len(self.dz) > 1 else 0.0
+        self.lam = LAMBDA1 * rho               # interpolation weights grow with the adjacent spacing ratio
         rr = np.linspace(self.r[0], self.r[-1], 65)
         zz = np.linspace(self.z[0], self.z[-1], 65)
         c = sol.coeffs()
         self.c = c
-        m = lambda i, j: sol.dmax(c, i, j, rr, zz)   # noqa
-        self.M = {(i, j): m(i, j) for i in range(0, 6) for j in range(0, 6) if i + j <= 5}
+        self.M = {(i, j): sol.dmax(c, i, j, rr, zz) for i in range(0, 6) for j in range(0, 6) if i + j <= 5}
+        self.fd_r = self._fd_nodes(self.dr, self.M[(2, 0)], self.M[(3, 0)])
+        self.fd_z = self._fd_nodes(self.dz, self.M[(0, 2)], self.M[(0, 3)])
 
-    def _is_edge(self, R, Z):
-        r, z = self.r, self.z
-        er = (R < r[1]) | (R > r[-2])
-        ez = (Z < z[1]) | (Z > z[-2])
-        return er, ez
+    @staticmethod
+    def _fd_nodes(d, m2, m3):
+        n = len(d) + 1
+        e = np.empty(n)
+        a, b = d[:-1], d[1:]
+        e[1:-1] = np.abs(b - a) / 2 * m2 + np.maximum(a, b) ** 2 / 3 * m3
+        for node, (a_, b_) in ((0, (d[0], d[1])), (n - 1, (d[-1], d[-2]))):
+            den = 3 * a_ - b_
+            e[node] = (abs(a_ - b_) * (3 * a_ + b_) / (2 * den) * m2 + (4 * a_ ** 3 + (a_ + b_) ** 3) / (6 * den) * m3) if den > 0 else np.inf
+        return e
+
+    @staticmethod
+    def _local(axis, d, X):
+        """cell index, local spacing (largest of the cell and its neighbours), edge flag, node window for each X."""
+        i = np.clip(np.searchsorted(axis, X, side="right") - 1, 0, len(axis) - 2)
+        lo = np.clip(i - 1, 0, len(d) - 1)
+        hi = np.clip(i + 1, 0, len(d) - 1)
+        h = np.maximum(np.maximum(d[lo], d[i]), d[hi])
+        edge = (i == 0) | (i == len(axis) - 2)
+        return i, h, edge
 
     def _interp(self, R, Z, dr, dz):
         """bound of |bicubic interpolant of exact node values of F - F| where F = d^dr_R d^dz_Z psi."""
         M = self.M
-        er, ez = self._is_edge(np.asarray(R, float), np.asarray(Z, float))
-        out = np.zeros(np.shape(R))
-        for edge_r in (False, True):
-            for edge_z in (False, True):
-                e_r = _e1d(self.hr, M[(dr + 2, dz)], M[(dr + 3, dz)], M[(dr + 4, dz)] if dr + 4 + dz <= 5 else 0.0, edge_r)
-                e_z = _e1d(self.hz, M[(dr, dz + 2)], M[(dr, dz + 3)], M[(dr, dz + 4)] if dr + dz + 4 <= 5 else 0.0, edge_z)
-                sel = (er == edge_r) & (ez == edge_z)
-                out = np.where(sel, LAMBDA1 * (e_r + e_z), out)
+        R = np.asarray(R, float)
+        Z = np.asarray(Z, float)
+        _, hr, er = self._local(self.r, self.dr, R)
+        _, hz, ez = self._local(self.z, self.dz, Z)
+        m4r = M[(dr + 4, dz)] if dr + 4 + dz <= 5 else 0.0
+        m4z = M[(dr, dz + 4)] if dr + dz + 4 <= 5 else 0.0
+        e_r = hr ** 4 * m4r / 384.0 + hr ** 3 * M[(dr + 3, dz)] / 24.0 + np.where(er, hr ** 2 * M[(dr + 2, dz)] * (2.0 / 27.0), 0.0)
+        e_z = hz ** 4 * m4z / 384.0 + hz ** 3 * M[(dr, dz + 3)] / 24.0 + np.where(ez, hz ** 2 * M[(dr, dz + 2)] * (2.0 / 27.0), 0.0)
+        # cross-derivative node estimates (the fourth ingredient of a bicubic patch): their error is first order in the
+        # adjacent-spacing difference plus second order in the spacing; four corners with basis weight <= (4/27 h)^2 each
+        g = lambda i, j: M[(i, j)] if i + j <= 5 else 0.0   # noqa
+        d_xy = (self.jump_r / 2 * g(dr + 2, dz + 1) + self.jump_z / 2 * g(dr + 1, dz + 2)
+                + hr ** 2 / 3 * g(dr + 3, dz + 1) + hz ** 2 / 3 * g(dr + 1, dz + 3))
+        e_xy = 4 * (4.0 / 27.0) ** 2 * hr * hz * d_xy
+        return self.lam * (e_r + e_z) + self.lam ** 2 * e_xy
+
+    @staticmethod
+    def _window_max(e, i):
+        n = len(e)
+        out = e[np.clip(i - 1, 0, n - 1)]
+        for k in (0, 1, 2):
+            out = np.maximum(out, e[np.clip(i + k, 0, n - 1)])
         return out
 
     def psi(self, R, Z):
         return self._interp(R, Z, 0, 0)
 
     def dpsi_dR(self, R, Z):
-        fd = self.hr ** 2 * self.M[(3, 0)] / 3.0
-        return self._interp(R, Z, 1, 0) + LAMBDA1 ** 2 * fd
+        i, _, _ = self._local(self.r, self.dr, np.asarray(R, float))
+        return self._interp(R, Z, 1, 0) + self.lam ** 2 * self._window_max(self.fd_r, i)
 
     def dpsi_dZ(self, R, Z):
-        fd = self.hz ** 2 * self.M[(0, 3)] / 3.0
-        return self._interp(R, Z, 0, 1) + LAMBDA1 ** 2 * fd
+        j, _, _ = self._local(self.z, self.dz, np.asarray(Z, float))
+        return self._interp(R, Z, 0, 1) + self.lam ** 2 * self._window_max(self.fd_z, j)
 
 
 def point_in_polygon(px, py, vx, vy):
